@@ -236,18 +236,19 @@ def check(ctx):
     # ------------------------------------------------------------------ R6
     tcfg = CFG(ts)
     sdefs = df.all_defs(ts)
-    STREAM = names_defined_by(ts, lambda v: unparse(v) == "self.captured not in STDOUT_CAPTURE_KINDS", sdefs)
-    if len(STREAM) != 1:
-        raise AnalysisError(f"{PL}:tee_stdout: echo flag (`self.captured not in STDOUT_CAPTURE_KINDS`) not found")
-    STREAM = next(iter(STREAM))
-    sd = [d for d in sdefs.get(STREAM, []) if d.kind == "assign"]
-    first = sd[0].value if sd else None
-    ok = first is not None and unparse(first) == "self.captured not in STDOUT_CAPTURE_KINDS" and all(isinstance(d.value, ast.Constant) and d.value.value is False for d in sd[1:])
-    ctx.ob("R6", f"{PL}:CommandPipeline.tee_stdout", "echoing is enabled only for non-capturing kinds and can only be switched off afterwards", ok, key="tee|stream-flag", detail=str([unparse(d.value) for d in sd]))
+    # roles: the terminal target, and the echo flag = the one plain name that guards every write to it
     TARGET = names_defined_by(ts, lambda v: unparse(v) in ("STDOUT_DISPATCHER.handle", "sys.stdout"), sdefs)
     writes = [n for n in tcfg.nodes if n.kind == "stmt" and any((call_name(c) or "").split(".")[0] in TARGET and last_attr(c) == "write" for c in calls_in(n.ast))]
-    ok = bool(writes) and all(STREAM in facts_text(facts_at(tcfg, w)) for w in writes)
-    ctx.ob("R6", f"{PL}:CommandPipeline.tee_stdout", "every write to the terminal target is guarded by the echo flag", ok, key="tee|unguarded-echo")
+    if not writes:
+        raise AnalysisError(f"{PL}:tee_stdout: no write to the terminal target found")
+    guards_ = [{unparse(e) for e, pol in facts_at(tcfg, w) if pol and isinstance(e, ast.Name)} for w in writes]
+    common = set.intersection(*guards_) if guards_ else set()
+    ctx.ob("R6", f"{PL}:CommandPipeline.tee_stdout", "every write to the terminal target is guarded by the echo flag", len(common) >= 1, key="tee|unguarded-echo")
+    for STREAM in sorted(common)[:1]:
+        sd = [d for d in sdefs.get(STREAM, []) if d.kind == "assign"]
+        first = sd[0].value if sd else None
+        ok = first is not None and unparse(first) == "self.captured not in STDOUT_CAPTURE_KINDS" and all(isinstance(d.value, ast.Constant) and d.value.value is False for d in sd[1:])
+        ctx.ob("R6", f"{PL}:CommandPipeline.tee_stdout", "echoing is enabled only for non-capturing kinds and can only be switched off afterwards", ok, key="tee|stream-flag", detail=str([unparse(d.value) for d in sd]))
     sp = ctx.repo.module(SP)
     mk = sp.func("_make_last_spec_captured")
     mcfg = CFG(mk)
